@@ -222,6 +222,13 @@ class CallMixin:
 
     def apply_field_type(self, v, spec: str) -> None:
         """class invariant assumed on objects that exist on entry: 'dict[T]' / 'list[T]' / T"""
+        if spec.startswith('ddict['):
+            # collections.defaultdict whose factory builds an empty container of the inner spec
+            inner = spec[6:-1]
+            self._add_axiom(z3.Implies(v != smt.ABSENT, self.type_formula(v, '=defaultdict')))
+            self.container_elem_type[smt.simp(v).get_id()] = inner
+            self.ddict_factory[smt.simp(v).get_id()] = inner
+            return
         if spec.startswith('dict[') or spec.startswith('list['):
             kind, inner = spec[:4], spec[5:-1]
             self._add_axiom(z3.Implies(v != smt.ABSENT, self.type_formula(v, '=' + kind)))
